@@ -25,6 +25,7 @@ class Cu(Material):
     def setDefaultMassFracs(self):
         self.setMassFrac("CU63", 0.6915)
         self.setMassFrac("CU65", 0.3085)
+        self.refDens = 8.913  # g/cm3, what pseudoDensity expands in 2D
 
     def density(self, Tk=None, Tc=None):
         return 8.913  # g/cm3
